@@ -1093,14 +1093,29 @@ pub fn litmus_chain(s: &mut Src, p: &LitmusParams) -> Program {
     }
     // consumer
     let mut t = vec![];
-    consume(s, &mut t, (hops - 1) as u8);
+    let fenced_sc = consume(s, &mut t, (hops - 1) as u8) && matches!(t.last(), Some(Op::Fence { o: MO::Sc }));
+    let mut nlocs = hops + 1;
+    if !p.sc_only && p.fences && s.chance(1, 4) {
+        // last hop through the total order of SeqCst fences (store-buffering shape): the thread that
+        // consumed the flag fences and reads `b`; another thread writes `b`, fences and reads the
+        // payload. If the first does not see `b`, its fence precedes the other one, which therefore
+        // sees everything the first had acquired before (or by) its fence.
+        let b = nlocs as u8;
+        nlocs += 1;
+        if !fenced_sc {
+            t.push(Op::Fence { o: MO::Sc });
+        }
+        t.push(Op::Load { a: b, o: MO::Rlx });
+        threads.push(t);
+        t = vec![Op::Store { a: b, v: 1, o: MO::Rlx }, Op::Fence { o: MO::Sc }];
+    }
     t.push(Op::Load { a: data, o: if p.sc_only { MO::Sc } else { s.of(&LOAD_ORDS) } });
     threads.push(t);
     // optionally a second write to the payload by the producer before publishing (coherence)
     if s.chance(1, 4) {
         threads[1].insert(1, Op::Store { a: data, v: 2, o: MO::Rlx });
     }
-    wrap_main(s, threads, hops + 1, p.joins, p.late_spawn)
+    wrap_main(s, threads, nlocs, p.joins, p.late_spawn)
 }
 
 /// Programs over the harness's two loom thread-locals and two loom lazy statics, with SeqCst
